@@ -10,6 +10,7 @@ import (
 	"path/filepath"
 	"regexp"
 	"runtime"
+	"runtime/pprof"
 	"sort"
 	"strings"
 	"time"
@@ -53,7 +54,8 @@ func main() {
 	run := flag.String("run", "", "regexp of harness function names (vh_*)")
 	workers := flag.Int("workers", runtime.NumCPU(), "parallel workers")
 	out := flag.String("out", "", "result JSON file")
-	solver := flag.String("solver", "z3", "solver binary")
+	solver := flag.String("solver", "z3-new", "solver binary")
+	logic := flag.String("logic", "QF_BV", "SMT-LIB logic (QF_BV is fastest; ALL for floating point / uninterpreted functions)")
 	timeout := flag.Int("solver-timeout-ms", 20000, "per-query timeout")
 	budget := flag.Int("budget", 300000, "SSA steps per path")
 	maxViol := flag.Int("max-violations", 50, "violations kept per harness")
@@ -62,7 +64,13 @@ func main() {
 	verbose := flag.Bool("v", false, "verbose")
 	list := flag.Bool("list", false, "list harnesses")
 	seed := flag.Int64("seed", 0, "seed for choosing path witnesses")
+	cpuprof := flag.String("cpuprofile", "", "write a CPU profile")
 	flag.Parse()
+	if *cpuprof != "" {
+		f, _ := os.Create(*cpuprof)
+		pprof.StartCPUProfile(f)
+		defer pprof.StopCPUProfile()
+	}
 
 	t0 := time.Now()
 	overlay := map[string][]byte{}
@@ -104,7 +112,7 @@ func main() {
 	prog, _ := ssautil.AllPackages(pkgs, ssa.InstantiateGenerics)
 	prog.Build()
 	eng := &Engine{prog: prog, fset: fset, pkgs: map[string]*ssa.Package{}, infos: map[*ssa.Function]*fnInfo{},
-		globals: map[*ssa.Global]*Cell{}, initDone: map[*ssa.Package]bool{}, solverBin: *solver, solverTimeoutMs: *timeout,
+		globals: map[*ssa.Global]*Cell{}, initDone: map[*ssa.Package]bool{}, solverBin: *solver, logic: *logic, solverTimeoutMs: *timeout,
 		smtLog: *smtlog, verbose: *verbose}
 	for _, p := range prog.AllPackages() {
 		eng.pkgs[p.Pkg.Path()] = p
